@@ -67,9 +67,10 @@ def refine(op):
 def equivalent(op, impl, model):
     # undefined behaviour really executed: UBSan's report (the harness dies on that line) is the model's fault.
     #  irub: size() where end_ - begin_ overflows int/long;  cycl: it + k / it - k overflowing ptrdiff_t;
-    #  sp: a spiral range leaving the coordinate type;  cycx: advance on an empty boundary (% 0)
+    #  sp: a spiral range leaving the coordinate type;  nb: neighbours of a position on the edge of int / long;
+    #  cycx: advance on an empty boundary (% 0)
     kind = op.split(" ", 1)[0]
-    if kind in ("irub", "cycl", "sp") and model == "signed-overflow":
+    if kind in ("irub", "cycl", "sp", "nb") and model == "signed-overflow":
         return impl.startswith("CRASH(") and ("overflow" in impl or "cannot be represented" in impl)
     if kind == "cycx" and (model == "div-zero" or model.endswith(",div-zero")):
         return impl.startswith("CRASH(") and "division by zero" in impl
@@ -229,7 +230,12 @@ def batches(rng, tier):
         for (x, y) in origins:
             for d in dists:
                 ops.append(f"sp {ty} {x} {y} {d}")
-    ops += ["sp i32 0 0 49", "sp i32 7 -9 50", "sp i64 3 3 -1", "sp i32 3 3 -2", "sp i32 0 0 -3", "sp i64 100 -100 20"]
+    ops += ["sp i32 0 0 49", "sp i32 7 -9 50", "sp i64 100 -100 20"]
+    # negative distances (the documentation is silent; the model mirrors the code): end() lies above the origin and is met on ring |d| + 1 ... or never
+    for ty in ("i32", "i64"):
+        for (x, y) in ((0, 0), (3, 3), (-7, 2)):
+            for d in list(range(-9, 0)) + [-50]:
+                ops.append(f"sp {ty} {x} {y} {d}")
     yield Batch("spiral-ranges", ops, exhaustive=True,
                 note=f"make_spiral_range for every distance in {dists[0]}..{dists[-1]} from origins near 0, random, and near the limits of int / long")
 
@@ -247,6 +253,9 @@ def batches(rng, tier):
             pts.append((r.range(lo + 1, hi - 1), r.range(lo + 1, hi - 1)))
         ops += [f"nb {ty} {x} {y}" for (x, y) in pts]
     yield Batch("neighbours", ops, note="neumann_neighbors / moore_neighbors at origin, random and boundary positions")
+
+    yield Batch("neighbours-overflow", ["nb i32 -2147483648 0", "nb i64 0 9223372036854775807", "nb i32 5 2147483647", "nb i64 -9223372036854775808 -9223372036854775808"],
+                note="a position on the edge of int / long: x - 1 / x + 1 overflows (undefined; UBSan's report = the model's signed-overflow)")
 
     # 9. iterator::range / make_range / adapt_range / range::size
     ops = []
@@ -399,6 +408,20 @@ def batches(rng, tier):
     ops = [f"cycd {k} {L} {i} {f} {s_}" for k in "vl" for L in (0, 3) for f in range(L + 1) for s_ in range(f, L + 1) for i in range(L + 1)]
     yield Batch("cyclic-default-ctor", ops, exhaustive=True, note="cyclic_iterator(): value-initialised iterator and boundary; assignment from a real iterator")
 
+    # 17b. converting constructor / assignment (iterator -> const_iterator), then advance on the converted iterator
+    ops = []
+    L = 5
+    for kind in "vl":
+        for f in range(L):
+            for s_ in range(f + 1, L + 1):
+                for i in range(f, s_):
+                    for (f2, s2, j) in ((0, 0, 0), (1, 4, 2), (f, s_, i), (0, L, L)):
+                        for k in (-7, -1, 0, 1, 2, 6, 11):
+                            ops.append(f"cycc {kind} {L} {f} {s_} {i} {f2} {s2} {j} {k}")
+    yield Batch("cyclic-converting-ctor-assign", ops, exhaustive=True,
+                note="every boundary / position of a container of 5: cyclic_iterator<const_iterator>{cyclic_iterator<iterator>}, converting assignment into a "
+                     "default-constructed and over an existing iterator, OtherIterator = same type; the converted iterator advanced by k; source and copy independent")
+
     # 18. spiral_iterator used directly
     r = rng.fork("spi")
     ops = []
@@ -408,7 +431,8 @@ def batches(rng, tier):
             for d in range(0, 7):
                 for n in sorted({0, 1, 2, 2 * d * (d + 1), 2 * d * (d + 1) + 1, 2 * d * (d + 1) + 4, 100}):
                     ops.append(f"spi {ty} {x} {y} {d} {n}")
-            ops.append(f"spi {ty} {x} {y} -2 30")
+            for d in (-1, -2, -3, -4, -5, -8, -100):
+                ops.append(f"spi {ty} {x} {y} {d} 30")
             ops.append(f"spi {ty} {x} {y} 9 300")
     yield Batch("spiral-iterator-direct", ops, exhaustive=True,
                 note="spiral_iterator(pos, d): n steps alternating ++it / it++ (also past end()), the step at which it == end(), == with another max_dist, swap")
